@@ -176,25 +176,36 @@ Take(b) ==
   /\ UNCHANGED <<cfg, dest, out, envv, faults, restarts, verified, flags, pass, calls, hist, ctl>>
 
 \* leaves: what the request carries (BatchLeaves(h.s, h.n) for the migrator this specification describes;
-\* trace validation passes what the real request carried)
-SubmitL(h, leaves) ==
+\* trace validation passes what the real request carried); o: the backend's answer.
+\* A fatal answer dooms the pass (why = "err"), but the submitter only then cancels the others: until
+\* DoFail everything else goes on.
+SubmitL(h, leaves, o) ==
   /\ pc = "run" /\ h \in hold /\ h.st = "try" /\ Call
-  /\ \/ /\ Store(leaves)
-        /\ hold' = hold \ {h}
-        /\ Log([ev |-> "Add", pass |-> pass, start |-> h.s, n |-> h.n, code |-> "OK"])
-        /\ UNCHANGED <<faults, ctl>>
-     \/ /\ Has("quota") /\ faults' = faults - 1               \* ResourceExhausted: back off, then the same batch again
-        /\ hold' = (hold \ {h}) \cup {[h EXCEPT !.st = "wait"]}
-        /\ Log([ev |-> "Add", pass |-> pass, start |-> h.s, n |-> h.n, code |-> "ResourceExhausted"])
-        /\ UNCHANGED <<dest, flags, ctl>>
-     \/ /\ Has("fatal") /\ faults' = faults - 1               \* any other code: the pass fails
-        /\ hold' = hold \ {h}
-        /\ Fail("err") /\ Terminal
-        /\ Log([ev |-> "Add", pass |-> pass, start |-> h.s, n |-> h.n, code |-> "Internal"])
-        /\ UNCHANGED dest
+  /\ CASE o = "ok" ->
+             /\ Store(leaves)
+             /\ hold' = hold \ {h}
+             /\ Log([ev |-> "Add", pass |-> pass, start |-> h.s, n |-> h.n, code |-> "OK"])
+             /\ UNCHANGED <<faults, ctl>>
+       [] o = "quota" ->
+             /\ Has("quota") /\ faults' = faults - 1          \* ResourceExhausted: back off, then the same batch again
+             /\ hold' = (hold \ {h}) \cup {[h EXCEPT !.st = "wait"]}
+             /\ Log([ev |-> "Add", pass |-> pass, start |-> h.s, n |-> h.n, code |-> "ResourceExhausted"])
+             /\ UNCHANGED <<dest, flags, ctl>>
+       [] OTHER ->
+             /\ Has("fatal") /\ faults' = faults - 1          \* any other code: the pass fails
+             /\ hold' = hold \ {h}
+             /\ why' = "err" /\ Terminal
+             /\ Log([ev |-> "Add", pass |-> pass, start |-> h.s, n |-> h.n, code |-> "Internal"])
+             /\ UNCHANGED <<dest, pc, result, pos, root, sth, proved, gen>>
   /\ UNCHANGED <<cfg, out, bag, envv, restarts, verified, pass>>
 
-Submit(h) == SubmitL(h, BatchLeaves(h.s, h.n))
+\* the failed submitter cancels the pass
+DoFail ==
+  /\ pc = "run" /\ why = "err"
+  /\ pc' = "unwind"
+  /\ UNCHANGED <<cfg, dest, pipe, envv, faults, restarts, verified, flags, pass, calls, hist, why, result, pos, root, sth, proved, gen>>
+
+Submit(h) == \E o \in {"ok", "quota", "fatal"} : SubmitL(h, BatchLeaves(h.s, h.n), o)
 
 Wake(h) ==
   /\ pc = "run" /\ h \in hold /\ h.st = "wait"
@@ -202,7 +213,7 @@ Wake(h) ==
   /\ UNCHANGED <<cfg, dest, out, bag, envv, faults, restarts, verified, flags, pass, calls, hist, ctl>>
 
 PassDone ==
-  /\ pc = "run" /\ gen = sth /\ out = {} /\ bag = {} /\ hold = {}
+  /\ pc = "run" /\ why = "" /\ gen = sth /\ out = {} /\ bag = {} /\ hold = {}
   /\ pc' = "passDone" /\ pos' = sth
   /\ UNCHANGED <<cfg, dest, pipe, envv, faults, restarts, verified, flags, pass, calls, hist, why, result, root, sth, proved, gen>>
 
@@ -302,7 +313,7 @@ InitWith(c) ==
   /\ flags = {}
   /\ pass = 0 /\ calls = 0 /\ hist = <<>>
 
-Controller == GetRoot \/ PrepareSTH \/ Verify \/ AssignRange \/ PassDone \/ NextPass \/ EndUnwind \/ AwaitDone
+Controller == GetRoot \/ PrepareSTH \/ Verify \/ AssignRange \/ PassDone \/ NextPass \/ DoFail \/ EndUnwind \/ AwaitDone
 Workers == (\E r \in out : Fetch(r) \/ StragglerFetch(r))
 Submitters == (\E b \in bag : Take(b)) \/ (\E h \in hold : Submit(h) \/ Wake(h) \/ StragglerSubmit(h))
 Env == Integrate \/ Grow \/ Cancel \/ Revoke \/ Regain \/ Restart
@@ -323,7 +334,7 @@ NoConflict == "conflict" \notin flags /\ "outOfRange" \notin flags
 QuotaRetried == "quotaAbort" \notin flags
 QuotaAct == [][\A h \in hold : h.st = "wait" =>
                   \/ \E g \in hold' : g.s = h.s /\ g.n = h.n           \* still held: waiting or trying again
-                  \/ pc = "unwind"]_vars                                \* or the pass ended for another reason
+                  \/ pc = "unwind"]_vars                                \* or the pass ended for another reason (EndUnwind)
 \* a completed one-shot migration has no gaps: every index below the verified STH is there, unparsable ones included
 Complete == (result = "nil" /\ ~cfg.cont) => \A i \in 0..(sth - 1) : dest[i] # None
 VerbatimBad == (result = "nil" /\ ~cfg.cont) => \A i \in cfg.bad : i < sth => dest[i] \in {SrcLeaf(i), OldLeaf(i)}
